@@ -387,8 +387,18 @@ def scaled(es):
     return len(es) > 0 and (sum((u * 31 + v * 17 + w) for (u, v, w) in es) % 4 == 0)
 
 
+def unit(es):
+    """g: the values as they are; gs: divided by 8; gt / gh: times 2^-60 / 2^40 (one case in 16 each); a function of the edges"""
+    if not es:
+        return "g"
+    h = sum((u * 31 + v * 17 + w) for (u, v, w) in es)
+    if any(abs(w) > (1 << 20) for (_, _, w) in es):          # wide values keep their unit (2^44 * 2^40 would leave the exact range)
+        return "gs" if h % 4 == 0 else "g"
+    return "gs" if h % 4 == 0 else "gt" if h % 16 == 1 else "gh" if h % 16 == 2 else "g"
+
+
 def gline(es):
-    return (("gs " if scaled(es) else "g ") + " ".join("%d %d %d" % e for e in es)).strip()
+    return (unit(es) + " " + " ".join("%d %d %d" % e for e in es)).strip()
 
 
 def tie_shuffles(rng, es, k):
@@ -542,7 +552,7 @@ def evaluate(ctx, res, bins, orc, cases, record=True):
             res.count("simplices:%s" % ("not-built" if cap < 0 else "<=16" if nsimp <= 16 else "<=64" if nsimp <= 64 else "<=130" if nsimp <= 130 else "<=190"))
             res.count(("dims-compared:0..%d%s" % (cap, "" if full else " (truncated)")) if cap >= 0 else "dims-compared:none (components only)")
             ws = [w for (_, _, w) in es]
-            res.count("values-fed:%s" % ("w/8 (dyadic)" if scaled(es) else "integers"))
+            res.count("values-fed:%s" % {"g": "integers", "gs": "w/8 (dyadic)", "gt": "w * 2^-60", "gh": "w * 2^40"}[unit(es)])
             res.count("ties:%s" % ("none" if len(set(ws)) == len(ws) else "all-equal" if len(set(ws)) == 1 else "heavy" if len(set(ws)) * 2 <= len(ws) else "some"))
             for p in groups:
                 kept = len(p[1].split()) // 3
